@@ -60,26 +60,169 @@ def ground(f, budget=[0]):
     return f
 
 
+def _model_text(m):
+    try:
+        return "\n".join(f"{d.name()} = {m[d]}" for d in m.decls() if "!" not in d.name() or d.arity() == 0)[:6000]
+    except Exception:
+        return ""
+
+
 def check(ob, timeout_ms=20000):
     s = z3.Solver()
     s.set("timeout", timeout_ms)
     try:
-        for p in ob.pc:
-            s.add(ground(p))
-        s.add(z3.Not(ground(ob.goal)))
+        gpc = [ground(p) for p in ob.pc]
+        ngoal = z3.Not(ground(ob.goal))
+        for p in gpc:
+            s.add(p)
+        s.add(ngoal)
     except z3.Z3Exception as e:
         return ("unknown", str(e))
     r = s.check()
     if r == z3.sat:
+        return ("sat", _model_text(s.model()))
+    if r == z3.unknown:
         try:
-            m = s.model()
-            txt = "\n".join(f"{d.name()} = {m[d]}" for d in m.decls() if "!" not in d.name() or d.arity() == 0)[:6000]
-        except Exception:
-            txt = ""
-        return ("sat", txt)
+            m = _candidate_then_validate(gpc, ngoal, timeout_ms)
+        except z3.Z3Exception:
+            m = None
+        if m is not None:
+            return ("sat", "(finite instantiation of the integer-quantified assumptions, model validated against the full assumptions)\n" + _model_text(m))
     return (str(r), "")
 
 
+# ---------------------------------------------------------------------------------------------------------------
+# Integer-quantified assumptions (list invariants: forall i. 0 <= i < n => ...) make z3 answer `unknown` instead of
+# `sat`.  Candidate: replace every such assumption by finitely many instances (a WEAKER assumption, so a model of it
+# need not be a model of the original); validation: interpret each original assumption in the candidate model (every
+# symbol replaced by its value / function graph) and let the solver confirm it is valid there.  Only a validated model
+# counts as a refutation.
+INT_RANGE = range(-1, 6)
+
+
+def _int_forall(f):
+    return z3.is_quantifier(f) and f.is_forall() and all(f.var_sort(i).kind() == z3.Z3_INT_SORT for i in range(f.num_vars()))
+
+
+def _instantiate(f):
+    """(weakened formula, was anything weakened)"""
+    if _int_forall(f) and len(INT_RANGE) ** f.num_vars() <= 2000:
+        insts = [z3.substitute_vars(f.body(), *reversed([z3.IntVal(v) for v in c])) for c in itertools.product(INT_RANGE, repeat=f.num_vars())]
+        return z3.And(*insts), True
+    if z3.is_and(f):
+        parts = [_instantiate(c) for c in f.children()]
+        return z3.And(*[p for p, _ in parts]), any(w for _, w in parts)
+    return f, False
+
+
+def _array_definitions(gpc):
+    """assumptions of the form  forall j. c[j] == rhs(j)  (c an uninterpreted array constant that does not occur in rhs):
+    the generator's way of defining a shifted / spliced list.  A finitely instantiated candidate fixes c only at the
+    instantiated points; the definition itself tells what c is everywhere."""
+    out = {}
+    for p in gpc:
+        for f in (p.children() if z3.is_and(p) else [p]):
+            if not (_int_forall(f) and f.num_vars() == 1):
+                continue
+            b = f.body()
+            if not (z3.is_eq(b) and z3.is_select(b.arg(0))):
+                continue
+            sel, rhs = b.arg(0), b.arg(1)
+            c, idx = sel.arg(0), sel.arg(1)
+            if z3.is_const(c) and c.decl().kind() == z3.Z3_OP_UNINTERPRETED and z3.is_var(idx) and z3.get_var_index(idx) == 0 and not _occurs(c, rhs):
+                out[c.get_id()] = (c, rhs)
+    return out
+
+
+def _occurs(c, t):
+    todo, seen = [t], set()
+    while todo:
+        x = todo.pop()
+        if x.get_id() in seen:
+            continue
+        seen.add(x.get_id())
+        if z3.eq(x, c):
+            return True
+        todo.extend(x.children())
+    return False
+
+
+def _interpretation(m, defs):
+    funs, consts = [], []
+    defined = {k for k in defs}
+    for d in m.decls():
+        if d.arity() == 0:
+            if d().get_id() in defined:
+                continue
+            consts.append((d(), m.eval(d(), model_completion=True)))
+        else:
+            fi = m[d]
+            if not isinstance(fi, z3.FuncInterp):
+                return None
+            body = fi.else_value()
+            for i in range(fi.num_entries()):
+                e = fi.entry(i)
+                cond = z3.And(*[z3.Var(j, d.domain(j)) == e.arg_value(j) for j in range(d.arity())])
+                body = z3.If(cond, e.value(), body)
+            funs.append((d, body))
+
+    def base(f):
+        g = z3.substitute_funs(f, *funs) if funs else f
+        return z3.substitute(g, *consts) if consts else g
+    # defined arrays: c := lambda j. rhs(j), rhs interpreted (definitions may refer to other defined arrays: iterate)
+    lam = {}
+    pending = dict(defs)
+    for _round in range(len(pending) + 1):
+        for k, (c, rhs) in list(pending.items()):
+            if any(_occurs(c2, rhs) for k2, (c2, _r) in pending.items() if k2 != k):
+                continue
+            j = z3.Int("def_j")
+            body = z3.substitute_vars(rhs, j)
+            body = z3.substitute(body, *[(cc, ll) for cc, ll in lam.values()]) if lam else body
+            lam[k] = (c, z3.Lambda([j], base(body)))
+            del pending[k]
+    if pending:
+        return None
+
+    def interp(f):
+        g = z3.substitute(f, *[(cc, ll) for cc, ll in lam.values()]) if lam else f
+        return base(g)
+    return interp
+
+
+def _interpret(f, m):
+    it = _interpretation(m, {})
+    return None if it is None else it(f)
+
+
+def _candidate_then_validate(gpc, ngoal, timeout_ms):
+    weak, touched = [], []
+    for p in gpc:
+        w, was = _instantiate(p)
+        weak.append(w)
+        if was:
+            touched.append(p)
+    if not touched:
+        return None
+    s = z3.Solver()
+    s.set("timeout", min(timeout_ms, 8000))
+    s.add(*weak)
+    s.add(ngoal)
+    if s.check() != z3.sat:
+        return None
+    m = s.model()
+    interp = _interpretation(m, _array_definitions(gpc))
+    if interp is None:
+        return None
+    # every assumption (not only the weakened ones: defined arrays were re-read from their definitions) and the negated
+    # goal must be valid in the interpretation
+    for p in list(gpc) + [ngoal]:
+        v = z3.Solver()
+        v.set("timeout", 4000)
+        v.add(z3.Not(interp(p)))
+        if v.check() != z3.unsat:
+            return None      # not a model of the original assumptions (or could not be confirmed): no refutation
+    return m
 _named_enums: dict = {}
 
 
